@@ -35,9 +35,18 @@ use crate::error::Error;
 #[derive(Debug)]
 pub struct RpslEvaluator {
     conn: Option<Connection>,
+    /// The number of `filter-set` names resolved during the evaluation in progress.
+    filter_sets_resolved: usize,
 }
 
 impl RpslEvaluator {
+    /// The number of `filter-set` names that may be resolved during a single evaluation.
+    ///
+    /// A `filter-set` can refer to other `filter-set`s, and nothing stops registry data from
+    /// referring (by mistake) back to itself: following such a loop would only end when the stack
+    /// is exhausted, which takes the whole process down.
+    pub const MAX_FILTER_SETS_PER_EVALUATION: usize = 64;
+
     /// Construct a new [`Evaluator`].
     ///
     /// # Errors
@@ -47,7 +56,10 @@ impl RpslEvaluator {
     pub fn new(host: &str, port: u16) -> Result<Self, Error> {
         let addr = format!("{host}:{port}");
         let conn = IrrClient::new(addr).connect()?;
-        Ok(Self { conn: Some(conn) })
+        Ok(Self {
+            conn: Some(conn),
+            filter_sets_resolved: 0,
+        })
     }
 
     fn with_connection<F, T, E>(&mut self, f: F) -> Result<T, Error>
@@ -78,6 +90,8 @@ impl RpslEvaluator {
         T: Evaluate<'a, Self> + Display,
     {
         tracing::info!("evaluating RPSL mp-filter expression '{expr}'");
+        // every evaluation starts with a full budget, however the previous one ended
+        self.filter_sets_resolved = 0;
         <Self as Evaluator>::evaluate(self, expr)
     }
 }
@@ -150,6 +164,10 @@ impl Resolver<'_, FilterSet, MpFilterExpr> for RpslEvaluator {
 
     #[tracing::instrument(skip(self), level = "debug")]
     fn resolve(&mut self, filter_set: &FilterSet) -> Result<MpFilterExpr, Self::IError> {
+        if self.filter_sets_resolved >= Self::MAX_FILTER_SETS_PER_EVALUATION {
+            return Err(Error::FilterSetLoop(filter_set.to_string()));
+        }
+        self.filter_sets_resolved += 1;
         self.with_connection(|this, conn| {
             conn.pipeline()
                 // TODO: this is a bad API - we should be able to determine the required object
